@@ -243,12 +243,12 @@ var $send = (chan, value) => {
 
     var thisGoroutine = $curGoroutine;
     var closedDuringSend;
+    $block(); // Throws inside a JavaScript callback; nothing may be queued before that.
     chan.$sendQueue.push(closed => {
         closedDuringSend = closed;
         $schedule(thisGoroutine);
         return value;
     });
-    $block();
     return {
         $blk() {
             if (closedDuringSend) {
@@ -276,8 +276,8 @@ var $recv = chan => {
         f.value = v;
         $schedule(thisGoroutine);
     };
+    $block(); // Throws inside a JavaScript callback; nothing may be queued before that.
     chan.$recvQueue.push(queueEntry);
-    $block();
     return f;
 };
 var $close = chan => {
@@ -342,6 +342,7 @@ var $select = comms => {
         }
     }
 
+    $block(); // Throws inside a JavaScript callback; nothing may be queued before that.
     var entries = [];
     var thisGoroutine = $curGoroutine;
     var f = { $blk() { return this.selection; } };
@@ -384,6 +385,5 @@ var $select = comms => {
             }
         })(i);
     }
-    $block();
     return f;
 };
